@@ -553,6 +553,19 @@ func (x *Exec) addrOf(e *ast.UnaryExpr, st *State) Value {
 					st.vars[v] = Bx{p}
 					return Sc{p}
 				}
+			} else if cur, have := st.vars[v]; have {
+				// &err and other scalar locals (errors, integers, pointers):
+				// the variable becomes a heap cell, so that a callee writing
+				// through the pointer (ioutil.CheckClose(f, &err)) is seen
+				if bx, ok := cur.(Bx); ok {
+					return Sc{bx.P}
+				}
+				if _, isSc := cur.(Sc); isSc {
+					p := x.alloc(st, "addr_"+v.Name())
+					x.heapStoreStruct(st, v.Type(), p, cur)
+					st.vars[v] = Bx{p}
+					return Sc{p}
+				}
 			}
 		}
 	}
